@@ -26,6 +26,12 @@ ENGINES = [
         "kind_free_text": "hand-assembled Foundry artifacts are run through halmos' run_contract; TLC executes deploy/setUp/test message sequences on the reference EVM and classifies the outcomes",
     },
     {
+        "name": "abi-model",
+        "path": "spec/Abi.tla spec/AbiTypes.tla spec/MC_Abi.tla spec/AbiGen.tla spec/AbiRun.tla harness/abi_replay.py harness/abi_explore.py checks/c12.py",
+        "serves_properties": ["C12"],
+        "kind_free_text": "TLC model-checks the ABI encoder/decoder specification, enumerates signatures and candidate lists, and decodes / unifies the calldata produced by halmos",
+    },
+    {
         "name": "config-model",
         "path": "spec/Config.tla spec/MC_Config*.cfg harness/config_replay.py checks/c18.py",
         "serves_properties": ["C18"],
@@ -75,12 +81,26 @@ CHECKS: dict[str, dict] = {
         "note": "Exhaustive only at 8 bits; at 256 bits boundary x boundary and random vectors. Universal validity over 2^256 operands is not proved (DESIGN section 9). The mirror of SEVM's dispatch in harness/wordops.py is itself validated by the one-instruction programs.",
         "design_ref": "5 C06",
     },
+    "C08": {
+        "engine": "E1-reference-machine",
+        "technique": "generated store/load programs over Solidity-layout location expressions executed by TLC on the flat slot map of the TLA+ reference EVM; halmos paths compared pointwise under both storage layouts",
+        "text": "Programs perform 2-6 stores/loads over location expressions (scalars, mappings with 32-byte and short keys, dynamic arrays, struct offsets, nested to depth 3) written in several syntactic forms (run-time SHA3, PUSH32 of the precomputed hash, additions in either order and re-associated) with symbolic keys and indices, then re-read every location in another form; TLC executes them on Evm.tla (storage is a flat map slot -> word) for inputs from small colliding domains and large values, and every halmos path covering an input must return exactly the reference words, under --storage-layout solidity and generic, for SSTORE/SLOAD and TSTORE/TLOAD. A two-transaction run_contract scenario checks that transient storage written by setUp() is empty in the test.",
+        "note": "Array indices are kept below 2^64 (halmos' documented hash-range assumption); symbolic base slots end stuck in the solidity layout and are not judged. Two limits of the hash reverse lookup are recorded findings (KNOWN_FINDINGS.json) exercised by fixed probes; the random corpus uses constant forms only within the reach of that mechanism.",
+        "design_ref": "5 C08",
+    },
     "C09": {
         "engine": "E1-reference-machine",
         "technique": "TLA+ reference EVM with frame invariants (ContextCorrect, StaticNoWrite, BalanceConserved, FailureRestores) checked by TLC; generated call trees replayed into halmos",
         "text": "Call trees (depth 1-4, all call kinds, CREATE/CREATE2, every per-frame outcome, symbolic values and balances) are executed by TLC on Evm.tla with the frame invariants checked in every state; the root's output exposes every frame's context, flags, return data and the final storage/balances, and every halmos path covering an input must reproduce it exactly.",
         "note": "Same trusted base as C01; created-account addresses compared up to renaming; depth-1024 and gas effects not exercised.",
         "design_ref": "5 C09, 3.3",
+    },
+    "C12": {
+        "engine": "abi-model",
+        "technique": "Abi.tla (encoder, strict decoder, layout; 14 invariants model-checked) enumerates type trees and candidate lists; halmos' mk_calldata output is instantiated and decoded/unified by TLC; candidate exploration through SEVM",
+        "text": "Abi.tla specifies ABI type trees, head/tail encoding, a strict decoder and the layout function from the Solidity ABI specification; TLC checks Decode(Encode(v)) = v, disjoint leaf ranges and offset validity on the model (with mutated-encoder negative controls), and enumerates signatures (sampled in quick, all 28 922 signatures up to depth 3 / arity 3 in thorough) and candidate-length lists. For each, the calldata built by halmos' real mk_calldata is instantiated for every combination of candidate sizes with recognisable leaf values and handed back to TLC, which decodes it, checks bounds/disjointness/leaf uniqueness/element counts and unifies it with the encoding of an arbitrary tuple of those lengths; a CALLDATALOAD reader program run through SEVM must explore exactly the product of the candidate lists; unsupported types must raise.",
+        "note": "Full-width symbols for narrow types and symbolic padding are accepted (every ABI-valid value is an instance). Zero-length static arrays of dynamic element type and non-standard width strings are recorded as notes, outside the property's quantifier.",
+        "design_ref": "5 C12",
     },
     "C13": {
         "engine": "E1-reference-machine",
